@@ -328,13 +328,25 @@ Cd == ParseFormat(c.fmt).parts[1]
 Stars == Cd.w = -1 \/ Cd.p = -1
 Args == ArgsOf(Cd, c.wv, c.pv, c.v)
 
-OneForms ==
+OneFormsV(v) ==
   LET idx == c.idx
-      a == <<FormJ("A", Str(c.fmt), Arr(Args))>>
-      s == IF ~Stars /\ (AllForms \/ idx % 3 = 0) THEN <<FormJ("S", Str(c.fmt), c.v)>> ELSE <<>>
+      a == <<FormJ("A", Str(c.fmt), Arr(ArgsOf(Cd, c.wv, c.pv, v)))>>
+      s == IF ~Stars /\ (AllForms \/ idx % 3 = 0) THEN <<FormJ("S", Str(c.fmt), v)>> ELSE <<>>
       o == IF (AllForms \/ idx % 3 = 1) /\ (~Stars \/ idx % 5 = 0)
-           THEN <<FormJ("O", Str(WithKey(c.fmt, c.key)), Obj(<<Fld(c.key, c.hid, c.v)>>))>> ELSE <<>>
+           THEN <<FormJ("O", Str(WithKey(c.fmt, c.key)), Obj(<<Fld(c.key, c.hid, v)>>))>> ELSE <<>>
   IN a \o s \o o
+OneForms == OneFormsV(c.v)
+
+\* A negative fraction under d i u o x X is not decided (upstream implementations floor or
+\* truncate).  Both readings are integers, for which the result IS decided: the result for the
+\* fraction has to be one of the two.  AltForms lists, aligned with OneForms, the forms for
+\* trunc(v) and for floor(v) (empty when v is not such a value).
+NegFrac(v) == v.t = "num" /\ IsNeg(v) /\ ~IsIntV(v) /\ v.e < 0 /\ -v.e <= 30
+TruncMag(v) == v.m \div Pow2(-v.e)
+AltForms ==
+  IF NegFrac(c.v) /\ Cd.conv \in {100, 105, 117, 111, 120, 88}
+  THEN <<OneFormsV(IntV(-TruncMag(c.v))), OneFormsV(IntV(-(TruncMag(c.v) + 1)))>>
+  ELSE <<>>
 
 Emit ==
   IF c.u = "seed" THEN TRUE ELSE
@@ -342,7 +354,8 @@ Emit ==
   THEN PrintT(<<"CASE", ToJson([u |-> c.u, idx |-> c.idx, forms |-> <<FormJ("G", Str(c.fmt), c.vals)>>])>>)
   ELSE PrintT(<<"CASE", ToJson([u |-> c.u, idx |-> c.idx, meta |-> MetaJ(Cd, c.wv, c.pv, c.v),
                                  forms |-> IF c.u = "main" THEN OneForms
-                                           ELSE <<FormJ("A", Str(c.fmt), Arr(Args))>>])>>)
+                                           ELSE <<FormJ("A", Str(c.fmt), Arr(Args))>>,
+                                 alts |-> IF c.u = "main" THEN AltForms ELSE <<>>])>>)
 
 \* the text as written and the canonical text of its parse mean the same
 RA == Format(Str(c.fmt), Arr(Args))
